@@ -436,7 +436,18 @@ impl Prop for C09 {
             }
             let wire = up.resp.render();
             let expect_relay = kind == "valid" || (kind == "cut" && complete_at(&up.resp, &wire, up.cut)) || (kind == "trickle" && (wire.len() as u64) * 50 + 200 < timeout_ms);
-            let relay_or_502 = (kind == "trickle" && !expect_relay && (wire.len() as u64) * 50 < timeout_ms + 1000) || (kind == "cut" && !expect_relay && content_complete_at(&up.resp, &wire, up.cut));
+            // a chunked response whose content (everything up to and including the last-chunk line) got
+            // through before the upstream stalled: trailer fields may still be missing, and a recipient
+            // that does not wait for them relays the complete content
+            let sent_before_stall = match kind {
+                "stall" => Some(up.cut.min(wire.len().saturating_sub(1))),
+                "late-stall" => Some(up.cut.clamp(1, wire.len().saturating_sub(1).max(1)).min(wire.len())),
+                _ => None,
+            };
+            let content_end = wire.len().saturating_sub(up.resp.bytes_after_last_chunk_line());
+            let stalled_after_content = up.resp.effective_framing() == "chunked" && sent_before_stall.map(|k| k >= content_end).unwrap_or(false);
+            let trickled_content = kind == "trickle" && up.resp.effective_framing() == "chunked" && (content_end as u64) * 50 < timeout_ms + 1000;
+            let relay_or_502 = (kind == "trickle" && !expect_relay && (wire.len() as u64) * 50 < timeout_ms + 1000) || (kind == "cut" && !expect_relay && content_complete_at(&up.resp, &wire, up.cut)) || (!expect_relay && (stalled_after_content || trickled_content));
             let mut hs = headers.clone();
             hs.sort();
             let is_relay = status == up.resp.status && body == up.resp.effective_body() && hs == up.resp.expected_headers();
